@@ -277,162 +277,10 @@ def vecOp (v : VBuf) (nest : Bool) (w : List String) : St × String :=
   | ["end"] => (.none, "roots " ++ showRoots v.members)
   | _ => (.vec v nest, "bad-op")
 
-/-- `sibling hcap tcap d1 d2`: two `Writer::write`s through `Uninit` over the head of one allocation of
-`hcap + tcap` bytes; the model root is the *physical* allocation (so that a copy past the head's capacity
-is visible instead of being refused), the preconditions keep the real `reserve` a no-op. -/
-def siblingDemo (hcap tcap : Nat) (d1 d2 : Bytes) : String :=
-  if hcap = 0 ∨ d1.length + d2.length > hcap ∨ 2 * d1.length + d2.length > hcap + tcap ∨ hcap + tcap > 64 then "bad-op"
-  else
-    let r : Root := ⟨.bytesmut, 0, List.replicate (hcap + tcap) 0xAA⟩
-    match (Buf.root r).mkUninit with
-    | .error f => showFault f
-    | .ok u =>
-      match u.extend d1 with
-      | .done u1 =>
-        match u1.extend d2 with
-        | .done u2 => "root " ++ showRoot u2.getRoot
-        | _ => "bad-op"
-      | _ => "bad-op"
-
-/-! ### vectored programs -/
-
-def showItems (l : List Item) : String :=
-  match l.findSome? (fun (_, r) => match r with | .error f => some f | .ok _ => none) with
-  | some f => showFault f
-  | none =>
-    if l.isEmpty then "-" else
-    ",".intercalate (l.map fun (j, r) => match r with
-      | .ok (o, n) => s!"{j}:{o}+{n}"
-      | .error f => showFault f)
-
-def showRoots (ms : List Buf) : String :=
-  if ms.isEmpty then "-" else "|".intercalate (ms.map fun m => showRoot m.getRoot)
-
-def showNat : Res Nat → String
-  | .ok n => toString n
-  | .error f => showFault f
-
-def showV (v : VBuf) : String :=
-  s!"s={showItems v.iterSlice} u={showItems v.iterUninit} t={showNat v.totalLen}/{showNat v.totalCap} r={showRoots v.members}"
-
-def showTriple : Res (Nat × Nat × Nat) → String
-  | .ok (j, o, l) => s!"{j}:{o}+{l}"
-  | .error f => showFault f
-
-def showIt (it : VIter) : String :=
-  s!"i={showTriple it.asInit} u={showTriple it.asUninit} r={showRoots it.buf.members}"
-
-def parseView (v : Buf) (s : String) : Option (Res Buf) :=
-  if s = "u" then some v.mkUninit
-  else if s.startsWith "s" then
-    match (s.drop 1).toString.splitOn "." with
-    | [b, e] =>
-      match b.toNat?, parseEnd e with
-      | some b, some e => some (v.mkSlice b e)
-      | _, _ => none
-    | _ => none
-  else none
-
-def parseMember (s : String) : Option (Res Buf) :=
-  match s.splitOn ":" with
-  | [k, len, h] => (parseRootSpec k len h).map fun r => .ok (.root r)
-  | [k, len, h, view] =>
-    match parseRootSpec k len h with
-    | some r => parseView (.root r) view
-    | none => none
-  | _ => none
-
-def collectMembers : List (Option (Res Buf)) → Option (Res (List Buf))
-  | [] => some (.ok [])
-  | none :: _ => none
-  | some r :: t =>
-    match collectMembers t with
-    | none => none
-    | some rest =>
-      match r, rest with
-      | .ok m, .ok ms => some (.ok (m :: ms))
-      | .error f, _ => some (.error f)
-      | _, .error f => some (.error f)
-
-/-- the container types (and arities) the harness instantiates -/
-def parseVKind (s : String) (n : Nat) : Option VKind :=
-  if s = "vec" ∨ s = "smallvec" ∨ s = "arrayvec" then (if n ≤ 4 then some .list else none)
-  else if s = "arr" then (if n = 0 ∨ n = 2 ∨ n = 3 then some .list else none)
-  else if s = "tuple1" then (if 1 ≤ n ∧ n ≤ 3 then some .tupleSingle else none)
-  else if s = "tuple0" then (if n ≤ 2 then some .tupleUnit else none)
-  else none
-
-def VBuf.depth : VBuf → Nat
-  | .base _ _ => 0
-  | .vslice i _ _ _ => VBuf.depth i + 1
-
-def parseVRoot (k ms : String) : Option (Res VBuf) :=
-  let parts := if ms = "-" then [] else ms.splitOn ";"
-  match collectMembers (parts.map parseMember) with
-  | none => none
-  | some r =>
-    match parseVKind k parts.length with
-    | none => none
-    | some vk =>
-      match r with
-      | .ok l => some (.ok (.base vk l))
-      | .error f => some (.error f)
-
-def vres (nest : Bool) (r : Res VBuf) : St × String :=
+def itKeep (nest : Bool) (it : VIter) (r : Res VIter) : St × String :=
   match r with
-  | .ok v' => (.vec v' nest, showV v')
-  | .error f => (.none, showFault f)
-
-def vChecked (v : VBuf) (n : Nat) (k : Res VBuf) : Res VBuf :=
-  match v.totalCap with
-  | .error f => .error f
-  | .ok c => if n ≤ c then k else .error .contract
-
-/-- refusals (`contract`) leave the state, real panics kill it -/
-def vresKeep (nest : Bool) (v : VBuf) (r : Res VBuf) : St × String :=
-  match r with
-  | .ok v' => (.vec v' nest, showV v')
-  | .error .contract => (.vec v nest, "contract")
-  | .error f => (.none, showFault f)
-
-/-- a second `VectoredSlice` layer is only instantiated by the harness for `Vec` and `(T, .. (T,))` containers -/
-def canSlice (v : VBuf) (nest : Bool) : Bool := VBuf.depth v = 0 || (VBuf.depth v = 1 && nest)
-
-def vecOp (v : VBuf) (nest : Bool) (w : List String) : St × String :=
-  match w with
-  | ["vfill", h] =>
-    match parseHex h with
-    | some d => vresKeep nest v (v.fill d)
-    | none => (.vec v nest, "bad-op")
-  | ["vsetlen", n] =>
-    match n.toNat? with
-    | some n => vresKeep nest v (vChecked v n (v.setLen n))
-    | none => (.vec v nest, "bad-op")
-  | ["vadvto", n] =>
-    match n.toNat? with
-    | some n => vresKeep nest v (vChecked v n (v.advanceVecTo n))
-    | none => (.vec v nest, "bad-op")
-  | ["vslice", b] =>
-    match b.toNat? with
-    | some b => if canSlice v nest then vres nest (v.mkSlice b) else (.vec v nest, "bad-op")
-    | none => (.vec v nest, "bad-op")
-  | ["vslicemut", b] =>
-    match b.toNat? with
-    | some b => if canSlice v nest then vres nest (v.mkSliceMut b) else (.vec v nest, "bad-op")
-    | none => (.vec v nest, "bad-op")
-  | ["vpeel"] => vres nest (.ok v.peel)
-  | ["viter"] =>
-    match v.ownedIter with
-    | .error f => (.none, showFault f)
-    | .ok (.inl v') => (.vec v' nest, "empty " ++ showV v')
-    | .ok (.inr it) => (.viter it nest, showIt it)
-  | ["end"] => (.none, "roots " ++ showRoots v.members)
-  | _ => (.vec v nest, "bad-op")
-
-def itKeep (it : VIter) (r : Res VIter) : St × String :=
-  match r with
-  | .ok it' => (.viter it', showIt it')
-  | .error .contract => (.viter it, "contract")
+  | .ok it' => (.viter it' nest, showIt it')
+  | .error .contract => (.viter it nest, "contract")
   | .error f => (.none, showFault f)
 
 def itChecked (it : VIter) (n : Nat) (k : Res VIter) : Res VIter :=
@@ -440,26 +288,26 @@ def itChecked (it : VIter) (n : Nat) (k : Res VIter) : Res VIter :=
   | .error f => .error f
   | .ok (_, _, c) => if n ≤ c then k else .error .contract
 
-def viterOp (it : VIter) (w : List String) : St × String :=
+def viterOp (it : VIter) (nest : Bool) (w : List String) : St × String :=
   match w with
   | ["ifill", h] =>
     match parseHex h with
-    | some d => itKeep it (it.fill d)
-    | none => (.viter it, "bad-op")
+    | some d => itKeep nest it (it.fill d)
+    | none => (.viter it nest, "bad-op")
   | ["isetlen", n] =>
     match n.toNat? with
-    | some n => itKeep it (itChecked it n (it.setLen n))
-    | none => (.viter it, "bad-op")
+    | some n => itKeep nest it (itChecked it n (it.setLen n))
+    | none => (.viter it nest, "bad-op")
   | ["iadvto", n] =>
     match n.toNat? with
-    | some n => itKeep it (itChecked it n (it.advanceTo n))
-    | none => (.viter it, "bad-op")
+    | some n => itKeep nest it (itChecked it n (it.advanceTo n))
+    | none => (.viter it nest, "bad-op")
   | ["inext"] =>
     match it.next with
-    | .inl v => (.vec v, "done " ++ showV v)
-    | .inr it' => (.viter it', showIt it')
-  | ["iinner"] => (.vec it.buf, showV it.buf)
-  | _ => (.viter it, "bad-op")
+    | .inl v => (.vec v nest, "done " ++ showV v)
+    | .inr it' => (.viter it' nest, showIt it')
+  | ["iinner"] => (.vec it.buf nest, showV it.buf)
+  | _ => (.viter it nest, "bad-op")
 
 def step (st : St) (line : String) : St × String :=
   if line.startsWith "#case" then (.none, line.trimAscii.toString) else
